@@ -164,4 +164,46 @@ def C02.evTag : Ev Rat → Nat
 def C02.obs (e : Nat) (oldStyle : Bool) (b : List Tok) : List Nat :=
   (runBlock (α := Rat) toyCharSpec ⟨e⟩ oldStyle b #[] none).1.toList.map C02.evTag
 
+/-! each clause of `UsesNone` is needed: a block that violates just that clause, and two
+    extension sets under which it is read differently (ground computations; the two with numbers
+    are evaluated by the kernel directly) -/
+
+-- `@?a`: a modifier character after the marker
+example : let b := C02.toks [(.at, ['@']), (.question, ['?']), (.word, ['a'])]
+    UsesNone toyCharSpec b = false ∧ C02.obs 0 true b ≠ C02.obs Gen.EXT_COMPONENT_MODIFIERS true b := by
+  decide
+
+-- `@a|b{}`: a `|` in the name
+example : let b := C02.toks [(.at, ['@']), (.word, ['a']), (.or, ['|']), (.word, ['b']), (.openBrace, ['{']),
+      (.closeBrace, ['}'])]
+    UsesNone toyCharSpec b = false ∧ C02.obs 0 true b ≠ C02.obs Gen.EXT_COMPONENT_ALIAS true b := by
+  decide
+
+-- `@a{1-2}`: a `-` in the quantity
+example : let b := C02.toks [(.at, ['@']), (.word, ['a']), (.openBrace, ['{']), (.int, ['1']), (.minus, ['-']),
+      (.int, ['2']), (.closeBrace, ['}'])]
+    UsesNone toyCharSpec b = false ∧ C02.obs 0 true b ≠ C02.obs Gen.EXT_RANGE_VALUES true b := by
+  decide +kernel
+
+-- `@a{1 kg}`: a number, whitespace, a word and no `%`
+example : let b := C02.toks [(.at, ['@']), (.word, ['a']), (.openBrace, ['{']), (.int, ['1']), (.ws, [' ']),
+      (.word, ['k','g']), (.closeBrace, ['}'])]
+    UsesNone toyCharSpec b = false ∧ C02.obs 0 true b ≠ C02.obs Gen.EXT_ADVANCED_UNITS true b := by
+  decide +kernel
+
+-- `~a` and `~a{}`: a timer without a quantity
+example : let b := C02.toks [(.tilde, ['~']), (.word, ['a'])]
+    UsesNone toyCharSpec b = false ∧ C02.obs 0 true b ≠ C02.obs Gen.EXT_TIMER_REQUIRES_TIME true b := by
+  decide
+
+example : let b := C02.toks [(.tilde, ['~']), (.word, ['a']), (.openBrace, ['{']), (.closeBrace, ['}'])]
+    UsesNone toyCharSpec b = false ∧ C02.obs 0 true b ≠ C02.obs Gen.EXT_TIMER_REQUIRES_TIME true b := by
+  decide
+
+-- `>> [mode]: x` (after a front matter, i.e. `oldStyle = false`): a bracketed metadata key
+example : let b := C02.toks [(.metaStart, ['>','>']), (.ws, [' ']), (.punct, ['[']), (.word, ['m','o','d','e']),
+      (.punct, [']']), (.colon, [':']), (.ws, [' ']), (.word, ['x'])]
+    UsesNone toyCharSpec b = false ∧ C02.obs 0 false b ≠ C02.obs Gen.EXT_MODES false b := by
+  decide
+
 end Cook
